@@ -534,6 +534,21 @@ scoSetUndoState(void)
 	scoUndoState = true;
 }
 
+/*
+ * A step of the interactive loop that does not get as far as scope binding
+ * (it did not parse).  What a rejected step before it left behind is undone
+ * when the following step is bound, and is recognised by its step number, so
+ * the undo must not be skipped together with the binding.
+ */
+void
+scopeBindSkipStep(Stab stab)
+{
+	scoStab = stab;
+
+	scobindRestore();
+	scobindSave();
+}
+
 void
 scopeBind(Stab stab, AbSyn absyn)
 {
